@@ -348,6 +348,11 @@ mk B28; d=$D
 edit "$d/graph/graphalg/dom.go" 's.replace("\t\tfor poNum[b2] < poNum[b1] {\n\t\t\tb2 = idom[b2]", "\t\tfor poNum[b2] < poNum[b1] {\n\t\t\tb2 = idom[b1]")'
 expect B28 "$d" C19 tie_failed tie_intersect
 
+echo "== B29 breaking: BinomialDist.CDF passes k instead of k+1 to BetaInc"
+mk B29; d=$D
+edit "$d/stats/binomdist.go" 's.replace("return mathx.BetaInc(1-d.P, float64(d.N-ki), k+1)", "return mathx.BetaInc(1-d.P, float64(d.N-ki), k)")'
+expect B29 "$d" C06 tie_failed tie_binom_CDF
+
 if [ $FULL = 1 ]; then
   echo "== full check on B1: both ties report (correspondence finds a failing input)"
   out=$(VERIF_REPO="$B1" bin/check C13 quick 2>&1); rc=$?
